@@ -92,11 +92,12 @@ def _one(P, L, only=None):
         an1 = ana.make_analyzer(xc.copy(), fs, win="kaiser", psll=float(P), order=-1, olap=0.0, backend="numba")
 
         def resp(b):
-            r = an2.compute_single_bin(b * fs / L, L=L)._data
+            r = an2.compute_single_bin(b * fs / L, L=L)
+            r = {"XX": r.XX, "YY": r.YY, "XY": r.XY}
             return float(r["XX"][0] + r["YY"][0] + 2.0 * np.imag(r["XY"][0]))
 
         def resp1(b):
-            return float(an1.compute_single_bin(b * fs / L, L=L)._data["XX"][0])
+            return float(an1.compute_single_bin(b * fs / L, L=L).XX[0])
 
         R0 = resp(b0)
         R0r = resp1(b0)
@@ -118,7 +119,8 @@ def _one(P, L, only=None):
                     "navg": np.ones(nfp, dtype=int), "D": [np.zeros(1, dtype=int) for _ in range(nfp)], "O": np.zeros(nfp), "nf": nfp}
 
         full = ana.make_analyzer(np.stack([xc, xs]), fs, win="kaiser", psll=float(P), order=-1, olap=0.0, backend="numba",
-                                 scheduler=plan_fn).compute()._data
+                                 scheduler=plan_fn).compute()
+        full = {"XX": np.asarray(full.XX), "YY": np.asarray(full.YY), "XY": np.asarray(full.XY)}
         Rf = full["XX"] + full["YY"] + 2.0 * np.imag(full["XY"])
         ib0 = int(np.argmin(np.abs(fb - b0 * fs / L)))
         ratios = np.delete(Rf, ib0) / Rf[ib0]
